@@ -112,7 +112,11 @@ func GetPosition(ast MalType) *Position {
 func NewLispError(err MalType, ast MalType) LispError {
 	switch err := err.(type) {
 	case LispError:
-		err.cursor = GetPosition(ast)
+		if err.cursor == nil {
+			// keep the position of the innermost failing form: an error that already
+			// points somewhere is not re-positioned at the call forms it passes through
+			err.cursor = GetPosition(ast)
+		}
 		return err
 	default:
 		return LispError{
